@@ -171,7 +171,7 @@ pub fn profile_for(prop: &str) -> Profile {
             p.weights = [24, 8, 6, 6, 4, 2, 6, 4, 5, 3, 5, 12, 2, 1, 1, 4];
         }
         "C10" => {
-            p.weights = [20, 12, 12, 10, 10, 3, 0, 0, 0, 0, 3, 2, 1, 0, 0, 4];
+            p.weights = [20, 12, 14, 10, 10, 3, 2, 2, 2, 1, 3, 2, 1, 0, 0, 4];
             p.uniform = true;
             p.max_ops = 70;
         }
@@ -225,6 +225,11 @@ pub fn arena_strategy(p: &Profile) -> BoxedStrategy<Vec<u8>> {
             v
         })
         .boxed()
+}
+
+/// C10 runs half of its cases as uniform histories (exact tiling) and half as mixed ones (containment)
+pub fn mixed_mode(bytes: &[u8]) -> bool {
+    bytes.get(7).map_or(false, |b| b & 1 == 1)
 }
 
 pub struct ArenaRun {
@@ -321,7 +326,7 @@ impl Engine for ArenaEngine {
         arena_strategy(&self.profile)
     }
     fn run(&self, bytes: &[u8]) -> CaseOut {
-        let r = run_arena_case(bytes, self.profile.uniform, false);
+        let r = run_arena_case(bytes, self.profile.uniform && !mixed_mode(bytes), false);
         let mut out = CaseOut { hash: fnv(bytes), stats: r.stats.to_vec(), ..Default::default() };
         out.nontrivial = nontrivial(self.prop, &r.stats);
         for v in r.viol {
@@ -334,7 +339,7 @@ impl Engine for ArenaEngine {
         out
     }
     fn describe(&self, bytes: &[u8]) -> Value {
-        describe_case(bytes, self.profile.uniform)
+        describe_case(bytes, self.profile.uniform && !mixed_mode(bytes))
     }
     fn stat_names(&self) -> Vec<&'static str> {
         ST_NAMES.to_vec()
